@@ -215,7 +215,10 @@ func (ob *Obligation) solve(opts solveOpts) {
 		ob.finish(res, solvers[0].Name, out, fname, opts)
 		return
 	}
-	// stage 2: race
+	// stage 2: race (reachability probes get a short budget: an unknown there is tolerated)
+	if ob.Cover && opts.TimeoutS > 6 {
+		opts.TimeoutS = 6
+	}
 	type ans struct{ res, out, name string }
 	ctx, cancel := context.WithCancel(context.Background())
 	defer cancel()
